@@ -92,8 +92,9 @@ func exprPrec(e Expr) int {
 
 // PrintStyle controls whitespace in printed source.
 type PrintStyle struct {
-	Tight bool // no spaces around symbolic operators where the grammar allows
-	Wide  bool // extra spaces
+	Tight         bool // no spaces around symbolic operators where the grammar allows
+	Wide          bool // extra spaces
+	TrailingComma bool // list and map literals end with the trailing comma the grammar allows
 }
 
 // QuoteSoy writes a Soy string literal (single quotes).
@@ -273,6 +274,9 @@ func writeExpr(b *strings.Builder, e Expr, st PrintStyle) {
 			}
 			writeExpr(b, a, st)
 		}
+		if st.TrailingComma && len(e.Items) > 0 {
+			b.WriteString(",")
+		}
 		b.WriteString("]")
 	case *MapLit:
 		if len(e.Keys) == 0 {
@@ -286,6 +290,9 @@ func writeExpr(b *strings.Builder, e Expr, st PrintStyle) {
 			}
 			b.WriteString(QuoteSoy(k) + ":" + sp(st))
 			writeExpr(b, e.Vals[i], st)
+		}
+		if st.TrailingComma {
+			b.WriteString("," + sp(st))
 		}
 		b.WriteString("]")
 	default:
